@@ -317,7 +317,15 @@ def run_api(spec, acc):
             finally:
                 os.chdir(caller_dir)
             sent = sorted(str(x) for x in tr_paths)
-            if kept != sent:
+            # the director compares patterns and matches with node labels, which are normalized
+            # root-relative paths: a leading ./ carries no meaning there (a trailing / does)
+            normal = sorted(os.path.relpath(w, os.path.realpath(root)) + ("/" if x.endswith("/") else "")
+                            for w, x in zip(want, sorted(local, key=lambda x: real(caller_dir, x)), strict=True))
+            if sent != normal or str(tr_pattern).startswith("./"):
+                acc.violation(f"C20|api-not-normalized|glob|{here}|{pat}",
+                              {"here": here, "pattern": pat, "sent_pattern": str(tr_pattern), "sent": sent,
+                               "normalized": normal}, None)
+            elif kept != sent:
                 acc.violation(f"C20|api|glob payload rejected by its own pattern|{here}|{pat}",
                               {"here": here, "pattern": pat, "sent_pattern": str(tr_pattern), "sent": sent,
                                "recorded_by_director": kept}, None)
